@@ -264,7 +264,8 @@ impl Printable for Text {
 }
 impl Printable for Number {
 	fn print(&self, out: &mut PrintItems) {
-		p!(out, string(format!("{}", self)));
+		// A malformed number token may end with the character following it, including a newline
+		print_verbatim(&format!("{self}"), out);
 	}
 }
 
